@@ -402,7 +402,12 @@ func unhexS(s string) (string, error) {
 
 // runScenario executes the steps; the outcome is ok, a recovered panic, or a stall (with the
 // step that did not complete).
+// lastObserved: what the "observe:<call>" steps of the scenario that ran last have seen
+// (scenarios run one at a time in a process).
+var lastObserved []string
+
 func runScenario(steps []string) outcome {
+	lastObserved = nil
 	m, p := newMuxParts()
 	fx, err := newFixture(m)
 	if err != nil {
@@ -512,6 +517,24 @@ func runScenario(steps []string) outcome {
 					return abort(outcome{stalled: true, where: "local call " + f[1] + " did not return"})
 				}
 			}
+		case "observe":
+			// has the local call returned (it gets a moment: the hand-over wakes its goroutine)?
+			if len(f) != 2 {
+				return outcome{panicMsg: "harness: bad step " + st}
+			}
+			seen := "pending"
+			if c := sr.calls[f[1]]; c != nil {
+				select {
+				case o := <-c.done:
+					c.done <- o
+					seen = "done"
+					if o.panicMsg != "" {
+						return abort(o)
+					}
+				case <-time.After(150 * time.Millisecond):
+				}
+			}
+			lastObserved = append(lastObserved, seen)
 		case "await":
 			want, err := unhexS(f[1])
 			if err != nil {
@@ -1053,6 +1076,63 @@ func pendingMatrix() []scenario {
 	return l
 }
 
+// mucHandover: the join hand-over of muc's presence handler on its whole one-step domain (what
+// is in Channel.join when an available presence of the occupant JID that is held arrives:
+// nothing, a request for that JID, a request for another nickname), observed on the real code:
+// did the presence complete the pending call (handed) or not (forward)?  The probe behind the
+// presence makes sure the handler has returned.  Model/MucHandover.lean predicts the outcome.
+//
+//	muchand none|same|other  ->  handed | forward | STALL | PANIC
+func (c *ctx) mucHandover() {
+	joined := []string{"call:mucjoin", await(`to="room@conf.example/nick"`), feed(mucPresence("room@conf.example/nick", "", true)), "wait:mucjoin"}
+	self := feed(mucPresence("room@conf.example/nick", "", true))
+	for _, q := range []string{"none", "same", "other"} {
+		steps := append([]string(nil), joined...)
+		call := ""
+		switch q {
+		case "same":
+			call = "mucrenick"
+			steps = append(steps, "call:"+call, awaitN(`to="room@conf.example/nick"`, 2))
+		case "other":
+			call = "mucrenick.nick2"
+			steps = append(steps, "call:"+call, await(`to="room@conf.example/nick2"`))
+		}
+		steps = append(steps, self, "probe")
+		if call != "" {
+			steps = append(steps, "observe:"+call, "cancel:"+call, "wait:"+call)
+		}
+		steps = append(steps, "probe", "end")
+		line := "muchand " + q
+		if !c.begin(line) {
+			continue
+		}
+		var seen []string
+		o := retryStalled(func() outcome {
+			oo := runScenario(steps)
+			seen = append([]string(nil), lastObserved...)
+			return oo
+		})
+		obs := o.obs()
+		if obs == "ok" {
+			obs = "forward"
+			if len(seen) > 0 && seen[0] == "done" {
+				obs = "handed"
+			}
+		}
+		r := rec{Lines: [][2]string{{line, obs}}, Canon: line, Class: "muc-handover"}
+		switch {
+		case o.panicMsg != "":
+			fn, file, ln := panicLocation(o.stack, c.repo)
+			r.Fail = &recFail{Clause: "no-panic", Key: "panic:" + fn, Lines: []string{c.r.Prop + " " + line},
+				Detail: fmt.Sprintf("panic %q at %s:%d in %s", o.panicMsg, file, ln, fn)}
+		case o.stalled:
+			r.Fail = &recFail{Clause: "no-wedge", Key: "stall:muchand:" + q, Lines: []string{c.r.Prop + " " + line},
+				Detail: "still running after " + wd().String() + ": " + o.where}
+		}
+		c.emit(r)
+	}
+}
+
 func (c *ctx) scen(s scenario, class string) {
 	line := "scen " + s.name + " " + strings.Join(s.steps, ",")
 	if c.stalls["scen"] >= 6 || !c.begin(line) {
@@ -1081,6 +1161,9 @@ func (c *ctx) scenarios(pendingOnly bool) {
 	list := scenarioList()
 	matrix := pendingMatrix()
 	if !pendingOnly {
+		if os.Getenv("C09_SCEN") == "" {
+			c.mucHandover()
+		}
 		for _, s := range list {
 			if only := os.Getenv("C09_SCEN"); only != "" && only != s.name {
 				continue
